@@ -22,7 +22,9 @@ func (c *Bool) SetValue(value bool) {
 
 // GetValue returns the value as bool
 func (c *Bool) GetValue() bool {
-	return c.Characteristic.GetValue().(bool)
+	// A characteristic which is not readable (e.g. identify) does not store a value
+	value, _ := c.Characteristic.GetValue().(bool)
+	return value
 }
 
 // OnValueRemoteGet calls fn when the value was read by a client.
